@@ -18,6 +18,7 @@ import contextvars
 import core
 import gen
 import simloop
+import threadsim
 from props import common
 
 ID = "C10"
@@ -39,7 +40,7 @@ CHUNK = 250
 
 
 def generate(r, tier):
-    engine = r.choice(["sync", "loop"])
+    engine = r.choice(["sync", "sync", "loop", "loop", "threads"])
     is_async = engine == "loop"
     world = gen.gen_world(r, is_async, nfuncs=(1, 3), with_class=0.7, forms=r.random() < 0.3, async_methods=is_async and r.random() < 0.5, mixed=True, subclass=0.4)
     units = gen.units_of(world)
@@ -55,7 +56,14 @@ def generate(r, tier):
     scn = {"property": ID, "engine": engine, "world": world, "actors": []}
     if engine == "loop" and r.random() < 0.5:
         scn["history"] = [gen.gen_ticket(r, "h.%d" % i, units, dict(profile, p_nested=0.0)) for i in range(r.randint(1, 2))]
-    nact = 1 if engine == "sync" else r.randint(1, 3)
+    nact = 1 if engine == "sync" else (r.randint(1, 3) if engine == "loop" else 2)
+    if engine == "threads":
+        scn["history"] = [gen.gen_ticket(r, "h.%d" % i, units, dict(profile, p_nested=0.0)) for i in range(r.randint(0, 1))]
+        scn["line_level"] = r.random() < 0.3
+        n = 300 if scn["line_level"] else 60
+        p = 0.03 if scn["line_level"] else r.choice([0.3, 0.6])
+        scn["choices"] = [(r.randint(1, 2) if r.random() < p else 0) for _ in range(n)]
+        scn["ctx"] = [r.choice(["fresh", "copied"]) for _ in range(2)]
     for i in range(nact):
         name = "a%d" % i
         script = []
@@ -94,6 +102,30 @@ def _execute(scn):
 
         contextvars.Context().run(go)
         return run, {}
+
+    if scn.get("engine") == "threads":
+        ctx_main = contextvars.Context()
+
+        def hist():
+            run.enter_actor("main")
+            for td in scn.get("history") or []:
+                run.call(td)
+
+        ctx_main.run(hist)
+        sim = threadsim.ThreadSim(run, scn.get("choices") or [], line_level=bool(scn.get("line_level")))
+        run.yield_hook = sim.yield_point
+        plan = []
+        for i, a in enumerate(actors):
+            mode = (scn.get("ctx") or ["fresh", "fresh"])[i % 2]
+            ctx = contextvars.Context() if mode == "fresh" else ctx_main.run(contextvars.copy_context)
+
+            def fn(a=a):
+                for td in a.get("script") or []:
+                    run.call(td)
+
+            plan.append((a["name"], ctx, fn))
+        sim.run_all(plan)
+        return run, {"handoffs": sim.handoffs}
 
     async def child(a):
         run.enter_actor(a["name"])
